@@ -24,6 +24,21 @@ def get_permeate_composition_from_fluxes(
     )
 
 
+def _validate_feed_state(feed_mass: float, feed_temperature: float) -> None:
+    """
+    Raises ValueError if the feed is exhausted or its temperature is not a positive finite number
+    """
+    if not (0 < feed_mass < numpy.inf):
+        raise ValueError(
+            "Feed mass %s kg is not positive: the feed is exhausted, consider a smaller step"
+            % feed_mass
+        )
+    if not (0 < feed_temperature < numpy.inf):
+        raise ValueError(
+            "Feed temperature %s K is not a positive finite number" % feed_temperature
+        )
+
+
 @attr.s(auto_attribs=True)
 class Pervaporation:
     membrane: Membrane
@@ -361,6 +376,7 @@ class Pervaporation:
             )
 
         for step in range(len(time)):
+            _validate_feed_state(feed_mass[step], conditions.initial_feed_temperature)
             partial_fluxes.append(
                 self.calculate_partial_fluxes(
                     feed_temperature=conditions.initial_feed_temperature,
@@ -478,6 +494,7 @@ class Pervaporation:
         feed_mass: typing.List[float] = [conditions.initial_feed_amount]
 
         for step in range(len(time)):
+            _validate_feed_state(feed_mass[step], feed_temperature[step])
 
             evaporation_heat_1 = (
                 self.mixture.first_component.get_vaporisation_heat(
@@ -1074,7 +1091,7 @@ class Pervaporation:
             )
 
         for step in range(len(time)):
-
+            _validate_feed_state(feed_mass[step], conditions.initial_feed_temperature)
             partial_fluxes.append(
                 self.calculate_partial_fluxes(
                     feed_temperature=conditions.initial_feed_temperature,
@@ -1346,6 +1363,7 @@ class Pervaporation:
         )
 
         for step in range(len(time)):
+            _validate_feed_state(feed_mass[step], feed_temperature[step])
 
             evaporation_heat_1 = (
                 self.mixture.first_component.get_vaporisation_heat(
